@@ -110,7 +110,7 @@ Proof.
       + vm_compute. lia.
     - unfold LoadsMultiMixed.part_ok. cbn [mp_xref]. apply ex_trailer_dom_x. reflexivity. }
   split.
-  { unfold LoadsTableProofs.tops. cbn [a_objs ex_adoc map fst snd].
+  { apply (Forall_impl _ (LoadsMultiFull.top_ok_ok2 ex_adoc)). unfold LoadsTableProofs.tops. cbn [a_objs ex_adoc map fst snd].
     constructor; [|constructor; [|constructor]].
     + cbn. split; [lia|]. split; [unfold u16_max; lia|]. split; [|lia]. split.
       * constructor; [intros [H|[]]; discriminate|]. constructor; [intros []|constructor].
@@ -163,7 +163,7 @@ Proof.
       + vm_compute. lia.
     - unfold LoadsMultiMixed.part_ok. cbn [mp_xref]. apply ex_trailer_dom_x. reflexivity. }
   split.
-  { unfold LoadsTableProofs.tops. cbn [a_objs ex_adoc map fst snd].
+  { apply (Forall_impl _ (LoadsMultiFull.top_ok_ok2 ex_adoc)). unfold LoadsTableProofs.tops. cbn [a_objs ex_adoc map fst snd].
     constructor; [|constructor; [|constructor]].
     + cbn. split; [lia|]. split; [unfold u16_max; lia|]. split; [|lia]. split.
       * constructor; [intros [H|[]]; discriminate|]. constructor; [intros []|constructor].
